@@ -139,6 +139,8 @@ package bytesconv
 // bytes.Reader (prefetched body bytes): unread portion is s[i:].
 //@ extern bytes.Reader.Size(r) n
 //@   ensures n == len(r.s)
+//@ extern bytes.Reader.Len(r) n
+//@   ensures n == ite(r.i >= len(r.s), 0, len(r.s) - r.i)
 //@ extern bytes.Reader.Read(r, b) n, err
 //@   modifies r.i, mem
 //@   ensures old(r.i) >= len(r.s) ==> n == 0 && err != nil && r.i == old(r.i)
